@@ -102,11 +102,12 @@ def elemTie (cfg : Cfg) (lm : LM St) (t : Nat) (e : Elem St) : Bool × Bool × O
   tieInfo cands (min cfg.width (e.slots.length * cfg.V))
 
 /-- The hypothesis of `C04_skeleton_stable` for one selection: `sepB m` on the candidates of a live
-element and the selection the model makes (`selDet`). -/
+element and the selection the model makes (`selDet`), evaluated in one pass per selected index
+(`sepFast`; `C04_sepFast_eq : sepFast = sepB`). -/
 def elemSep (m : Rat) (cfg : Cfg) (lm : LM St) (t : Nat) (e : Elem St) : Bool :=
   let rows := elemRows cfg lm t e
   let cands := candidates (e.slots.map (clampSlot cfg.V)) (rows.map (·.1))
-  sepB m cands (selDet cands (min cfg.width (e.slots.length * cfg.V)))
+  sepFast m cands (selDet cands (min cfg.width (e.slots.length * cfg.V)))
 
 /-- What is collected along the trajectory: tie flags, the smallest selection margin, and for
 every batch element the size `S` of the history tensor at the step at which it was first found
